@@ -141,14 +141,18 @@ def run_chain_identity(c, exe=None, bodies=None, rng=None):
         bouts = [os.path.join(c.work, "identity_bodies_out_%d.json" % i) for i in range(nsh)]
         jobs += [("bodies", "^TestVerifBlockIdentityBodies$", i, bpath, bouts[i]) for i in range(nsh)]
 
+    import time
+
     def one(j):
         what, run, i, ip, op = j
+        t0 = time.time()
         cwd = os.path.join(c.work, "cwd-%s-%d" % (what, i))
         os.makedirs(cwd, exist_ok=True)
         e = {"VERIF_IN": ip, "VERIF_OUT": op, "VERIF_SEED": c.seed, "VERIF_TIER": c.tier, "VERIF_SHARD": "%d/%d" % (i, nsh), "TMPDIR": cwd}
         try:
             p = subprocess.run([exe, "-test.run", run, "-test.timeout", "1200s", "-test.count", "1"], cwd=cwd, env=vlib.goenv(e),
                                capture_output=True, text=True, timeout=1260)
+            vlib.log("[c18-chain] %s shard %d: %.1fs" % (what, i, time.time() - t0))
             return p.returncode, p.stdout + p.stderr
         except subprocess.TimeoutExpired:
             return 124, "timeout"
